@@ -41,12 +41,12 @@ def register(reg):
     reg.add(Contract(
         f'{CV}:is_valid_rgb', params={'rgb': 'rgb'},
         pre=lambda S, a: S.true, result='bool', pure=True, raises=(),
-        posts={'def': lambda S, a, r: S.Iff(r, S.rgb8(a.rgb)) if S.is_tuple3(a.rgb) and all(isinstance(x, (VInt, VBool)) for x in a.rgb.xs) else S.true},
+        posts={'def': lambda S, a, r: S.Iff(r, S.rgb8(a.rgb)) if S.concrete or (S.is_tuple3(a.rgb) and all(isinstance(x, (VInt, VBool)) for x in a.rgb.xs)) else S.true},
         assumed='all(0 <= v <= 255 for v in rgb): verified by engine A in check C10'))
     reg.add(Contract(
         f'{CV}:rgbint_to_string', params={'rgb': 'rgb'},
         pre=lambda S, a: S.rgb8(a.rgb), result='rgbstr', pure=False, raises=(),
-        posts={'payload': lambda S, a, r: S.teq(r.sym[1], a.rgb)},
+        posts={'payload': lambda S, a, r: S.teq(S.payload(r), a.rgb)},
         assumed="returns f'rgb({r}, {g}, {b})' for a valid triple; READ(RGBSTR t) = t for all 2^24 t: engine D (check C06)"))
     reg.add(Contract(
         f'{CT}:get_wcag_level', params={'text_rgb': 'rgb', 'bg_rgb': 'rgb', 'large': 'bool'},
